@@ -93,6 +93,11 @@ func (c14) Gen(tier string, seed int64, emit func([]Ev)) {
 		}
 		a := absent()
 		reqs = append(reqs, []int{a}, []int{a, a}, []int{a, absent()}, []int{0}, []int{pmtPid}, []int{0, pmtPid, a})
+		if len(pids) > 0 {
+			// values outside the 13-bit PID range that agree with a listed PID in their low 13 / 16 bits: absent
+			p0 := pids[r.Intn(len(pids))]
+			reqs = append(reqs, []int{p0 + 8192}, []int{p0 + 65536, pids[0]}, []int{pids[len(pids)-1], p0 + 65536*3}, []int{0, p0 + 65536}, []int{p0 + 8192, p0})
+		}
 		for ri, q := range reqs {
 			if q == nil {
 				q = []int{}
